@@ -30,6 +30,7 @@ fn t_strategy() -> BoxedStrategy<URecipe> {
         1 => Just(URecipe::MinusOne),
         2 => any::<bool>().prop_map(URecipe::Exceptional),
         1 => any::<u16>().prop_map(URecipe::StagePreimage),
+        5 => (0u8..4, 0u8..4, fq_strategy(), 0u8..4).prop_map(|(stage, shape, c, pick)| URecipe::Structured { stage, shape, c, pick }),
     ]
     .boxed()
 }
@@ -51,7 +52,7 @@ fn t_g1(c: &SwuCase) -> Fq {
             let (a, b) = h2c::g1_exceptional_roots();
             if *s { a } else { b }
         }
-        URecipe::StagePreimage(_) => super::c14::u_g1(&c.t),
+        URecipe::StagePreimage(_) | URecipe::Structured { .. } => super::c14::u_g1(&c.t),
     };
     if c.negate { t.neg() } else { t }
 }
@@ -66,12 +67,18 @@ fn t_g2(c: &SwuCase) -> Fq2 {
             let (a, b) = h2c::g1_exceptional_roots();
             Fq2::new(Fq::zero(), if *s { a } else { b })
         }
-        URecipe::StagePreimage(_) => super::c14::u_g2(&c.t),
+        URecipe::StagePreimage(_) | URecipe::Structured { .. } => super::c14::u_g2(&c.t),
     };
     if c.negate { t.neg() } else { t }
 }
 
 fn check_swu(c: &SwuCase, info: &mut Info) -> Result<(), String> {
+    if let Some(cl) = super::c14::structured_class(c.group, &c.t) {
+        info.class(cl);
+    }
+    if matches!(c.t, URecipe::StagePreimage(_)) {
+        info.class("t-sswu-preimage-of-stage-special-point");
+    }
     if c.group == 0 {
         let t = t_g1(c);
         let curve = e1_iso();
